@@ -350,6 +350,37 @@ func VHAvlHist() {
 	if size >= 3 {
 		vCover("history ends with >= 3 values")
 	}
+	if vParam("SET") == 1 {
+		// Clone of a tree that has a history (stale internal fields included) is independent
+		var before []int
+		c01in(t.root, &before)
+		var c Tree[int]
+		pan := vPanics(func() { c = t.Clone() })
+		vAssert(!pan, "history: Clone works for a tree of any size")
+		if pan {
+			return
+		}
+		var cin []int
+		c01in(c.root, &cin)
+		c01eq(cin, before, "history: Clone has the same contents")
+		vAssert(c.Len() == size, "history: Clone has the same Len")
+		var a, b []*node[int]
+		c01nodes(t.root, &a)
+		c01nodes(c.root, &b)
+		for _, x := range a {
+			for _, y := range b {
+				vAssert(x != y, "history: Clone shares no node with the original")
+			}
+		}
+		c.Add(vInt("cv"))
+		if len(before) > 0 {
+			c.Remove(before[0])
+		}
+		var after []int
+		c01in(t.root, &after)
+		c01eq(after, before, "history: operations on the clone leave the original unchanged")
+		vAssert(t.Len() == size, "history: operations on the clone leave the original's Len unchanged")
+	}
 }
 
 // maximal height (in edges) of an AVL tree with n nodes
@@ -406,4 +437,73 @@ func VHAvlSorted() {
 		vAssert(c01th(t.root) <= c02maxHeight(n-m-1) || n-m-1 == 0, "sorted input: depth bound after each Remove")
 	}
 	vCover("sorted inserts done")
+}
+
+// c02fib builds the sparsest AVL tree of the given height (every node's subtrees differ by
+// exactly one); orient selects which side is the taller one at even/odd levels.
+func c02fib(h, level, orient int, next *int, vals *[]int) *node[int] {
+	if h < 0 {
+		return nil
+	}
+	n := &node[int]{}
+	tallLeft := orient == 0 || (orient == 2 && level%2 == 0) || (orient == 3 && level%2 == 1)
+	lh, rh := h-1, h-2
+	if !tallLeft {
+		lh, rh = h-2, h-1
+	}
+	n.left = c02fib(lh, level+1, orient, next, vals)
+	n.value = (*vals)[*next]
+	*next++
+	n.right = c02fib(rh, level+1, orient, next, vals)
+	n.height = n.calcHeight()
+	return n
+}
+
+func c02fibSize(h int) int {
+	if h < 0 {
+		return 0
+	}
+	return 1 + c02fibSize(h-1) + c02fibSize(h-2)
+}
+
+// VHAvlFib: from the sparsest AVL trees of height H (four orientations), remove any one
+// value or add a value in any gap: the result must be balanced with consistent heights.
+func VHAvlFib() {
+	h := vParam("H")
+	n := c02fibSize(h)
+	vals := make([]int, n)
+	for i := range vals {
+		vals[i] = vInt("f")
+		if i > 0 {
+			vAssume(vals[i-1] < vals[i])
+		}
+	}
+	next := 0
+	root := c02fib(h, 0, vChoose("orient", 4), &next, &vals)
+	t := &Tree[int]{compare: typ.Compare[int], root: root, count: n}
+	vAssume(c01balanced(t.root))
+	if vChoose("op", 2) == 0 {
+		k := vChoose("which", n)
+		vAssert(t.Remove(vals[k]), "fibonacci tree: Remove finds the value")
+		vAssert(c01balanced(t.root), "fibonacci tree: every node's subtree heights differ by at most one after Remove")
+		vAssert(c01heightsOK(t.root), "fibonacci tree: cached heights equal the true heights after Remove")
+		vAssert(c01th(t.root) <= c02maxHeight(n-1), "fibonacci tree: depth bound after Remove")
+		var in []int
+		c01in(t.root, &in)
+		vAssert(len(in) == n-1, "fibonacci tree: exactly one value removed")
+		vCover("fib: remove")
+	} else {
+		g := vChoose("gap", n+1)
+		v := vInt("new")
+		if g > 0 {
+			vAssume(vals[g-1] < v)
+		}
+		if g < n {
+			vAssume(v < vals[g])
+		}
+		t.Add(v)
+		vAssert(c01balanced(t.root), "fibonacci tree: balanced after Add")
+		vAssert(c01heightsOK(t.root), "fibonacci tree: cached heights equal the true heights after Add")
+		vCover("fib: add")
+	}
 }
